@@ -42,10 +42,68 @@ func stripBox(v ssa.Value) ssa.Value {
 			v = x.X
 		case *ssa.ChangeInterface:
 			v = x.X
+		case *ssa.UnOp:
+			// a variable that holds a function value and is assigned exactly once (`var f T; f = func…`, the form a
+			// closure that mentions itself needs)
+			if mc := onceAssignedClosure(x); mc != nil {
+				return mc
+			}
+			return v
 		default:
 			return v
 		}
 	}
+}
+
+// onceAssignedClosure: ld loads a local variable cell whose only store, anywhere, is a closure.
+func onceAssignedClosure(ld *ssa.UnOp) *ssa.MakeClosure {
+	if ld.Op != token.MUL {
+		return nil
+	}
+	al, ok := ld.X.(*ssa.Alloc)
+	if !ok || al.Referrers() == nil {
+		return nil
+	}
+	var found *ssa.MakeClosure
+	n := 0
+	for _, r := range *al.Referrers() {
+		switch x := r.(type) {
+		case *ssa.Store:
+			if x.Addr != ssa.Value(al) {
+				return nil // the cell's address escapes into another cell
+			}
+			n++
+			v := x.Val
+			for {
+				if mi, ok := v.(*ssa.MakeInterface); ok {
+					v = mi.X
+					continue
+				}
+				if ct, ok := v.(*ssa.ChangeType); ok {
+					v = ct.X
+					continue
+				}
+				break
+			}
+			found, _ = v.(*ssa.MakeClosure)
+		case *ssa.MakeClosure:
+			// captured: the closure must not assign it
+			fn := x.Fn.(*ssa.Function)
+			for i, b := range x.Bindings {
+				if b == ssa.Value(al) && i < len(fn.FreeVars) && fn.FreeVars[i].Referrers() != nil {
+					for _, fr := range *fn.FreeVars[i].Referrers() {
+						if st, isSt := fr.(*ssa.Store); isSt && st.Addr == ssa.Value(fn.FreeVars[i]) {
+							return nil
+						}
+					}
+				}
+			}
+		}
+	}
+	if n != 1 {
+		return nil
+	}
+	return found
 }
 
 func buildRoTable(g *ssa.Global) *roTable {
